@@ -67,6 +67,13 @@ static int run_case(int v, size_t adlen, size_t mlen, int inplace, const uint8_t
     int rr = siv ? ref_siv_decrypt(klen, refm, cc, clen, adc, adlen, nc, kc) : ref_aead_decrypt(klen, refm, cc, clen, adc, adlen, nc, kc);
     memset(arena_i, 0xA5, clen + 2 * GUARD + 8); memset(arena_o, 0x5A, clen + 2 * GUARD + 8);
     ib = arena_i + GUARD + offi; ob = inplace ? ib : arena_o + GUARD + offo;
+    /* sometimes: separate but NEIGHBOURING buffers (plaintext buffer, 0..7 bytes of gap, ciphertext buffer) */
+    uint8_t *adjar = 0;
+    if (!inplace && ((tr >> 27) & 3) == 0) {
+      unsigned gap = (tr >> 24) & 7;
+      adjar = malloc(mlen + gap + clen + 2 * GUARD); memset(adjar, 0x5A, mlen + gap + clen + 2 * GUARD);
+      ob = adjar + GUARD; ib = ob + mlen + gap;
+    }
     memcpy(ib, cc, clen);
     for (size_t i = 0; i < mlen && !inplace; i++) ob[i] = (uint8_t)(0xC0 + i);
     size_t mlen_out = 0xDEAD;
@@ -74,9 +81,10 @@ static int run_case(int v, size_t adlen, size_t mlen, int inplace, const uint8_t
     if (r != rr) { bad = 1; printf("FAIL %s decrypt (%s): returned %d, specification says %d", V[v].name, what, r, rr); }
     else if (mlen_out != mlen) { bad = 1; printf("FAIL %s decrypt (%s): *mlen=%zu expected %zu", V[v].name, what, mlen_out, mlen); }
     else if (memcmp(ob, refm, mlen)) { size_t i = 0; while (ob[i] == refm[i]) i++; bad = 1; printf("FAIL %s decrypt (%s, result %d): plaintext byte %zu is %02x, must be %02x%s", V[v].name, what, r, i, ob[i], refm[i], r ? " (C04: unauthenticated plaintext released)" : ""); }
-    if (!bad && !inplace) for (size_t i = GUARD + offo + mlen; i < clen + 2 * GUARD + 8; i++) if (arena_o[i] != 0x5A) { bad = 1; printf("FAIL %s decrypt: wrote past the documented clen-8 output", V[v].name); break; }
+    if (!bad && !inplace && !adjar) for (size_t i = GUARD + offo + mlen; i < clen + 2 * GUARD + 8; i++) if (arena_o[i] != 0x5A) { bad = 1; printf("FAIL %s decrypt: wrote past the documented clen-8 output", V[v].name); break; }
+    if (bad && adjar) printf(" [neighbouring buffers, gap %u]", (unsigned)((tr >> 24) & 7));
     if (!bad && memcmp(ib + mlen, cc + mlen, 8)) { bad = 1; printf("FAIL %s decrypt: tag bytes of the input modified", V[v].name); }
-    free(cc);
+    free(cc); free(adjar);
   }
   if (bad) {
     printf(" | adlen=%zu mlen=%zu inplace=%d align_in=%u align_out=%u", adlen, mlen, inplace, offi, offo);
